@@ -33,6 +33,7 @@ type c01cell struct {
 	name string
 	sp   *dialect.Spec
 	tags []string
+	opts []c01opt // when set: generate with exactly these flag sets
 }
 
 type kindDef struct {
@@ -454,6 +455,26 @@ func c01Matrix() []c01cell {
 		sp.Paths = []*dialect.PathItem{{Raw: "/x", Ops: []*dialect.Op{{Method: m, Responses: okResp()}}}}
 		add("method/"+m, sp, "method", m)
 	}
+	// CORS on: the synthesized preflight next to every declared method, incl. an explicit OPTIONS operation, on literal and
+	// variable last segments, with and without header parameters and security
+	for _, raw := range []string{"/x", "/x/{id}", "/", "/x/"} {
+		for _, ms := range [][]string{{"OPTIONS"}, {"GET", "OPTIONS"}, {"GET", "POST", "OPTIONS", "DELETE"}, {"GET"}, {"HEAD", "TRACE", "PATCH", "PUT"}} {
+			sp := c01Base()
+			pi := &dialect.PathItem{Raw: raw, Params: pathParams(raw)}
+			for _, m := range ms {
+				o := &dialect.Op{Method: m, Responses: okResp()}
+				if m == "GET" {
+					o.Params = []dialect.Param{{Name: "X-Trace", In: "header", Schema: &dialect.Schema{Type: "string"}}}
+				}
+				pi.Ops = append(pi.Ops, o)
+			}
+			sp.Paths = []*dialect.PathItem{pi}
+			sp.Schemes = []dialect.Scheme{{Name: "k", Kind: "keyheader", Param: "X-Key"}}
+			sp.Global, sp.HasGlobal = []dialect.Requirement{{"k"}}, true
+			cells = append(cells, c01cell{name: fmt.Sprintf("cors/%s/%s", raw, strings.Join(ms, "+")), sp: sp, tags: []string{"cors"},
+				opts: []c01opt{c01Opts[2], c01Opts[5], {"api+cors", gen.Options{API: true, Cors: true, DoNotEdit: true}, ""}}})
+		}
+	}
 	for i, kinds := range [][]string{{"bearer"}, {"keyheader"}, {"keyquery"}, {"bearer", "keyheader"}, {"keyheader", "keyquery"}, {"bearer", "keyheader", "keyquery"}} {
 		for _, global := range []bool{false, true} {
 			sp := c01Base()
@@ -587,7 +608,9 @@ func runC01(c runCfg) error {
 		for i, cl := range cells {
 			// flag combinations: thorough = api and api+client for every cell, the others on a rotating subset; quick = one rotating choice + api+client
 			var opts []c01opt
-			if c.Thorough {
+			if cl.opts != nil {
+				opts = cl.opts
+			} else if c.Thorough {
 				opts = []c01opt{c01Opts[0], c01Opts[1], c01Opts[2+i%4]}
 			} else {
 				opts = []c01opt{c01Opts[1], c01Opts[(i%5+2)%6]}
